@@ -94,7 +94,15 @@ func c03check(cs c03case) core.Outcome {
 				s.Main = append(s.Main, "over.yaml")
 			}
 		}
-		if cs.over != "" {
+		if cs.over != "" && cs.via == "extends" {
+			// the short / long form on a base service of the same file (merged as written, before any canonical form
+			// exists), the other layer as the own attributes of the service extending it
+			body := cs.short
+			if doc == ld {
+				body = cs.long
+			}
+			s.Files["compose.yaml"] = "services:\n  t: {image: t}\n  u: {image: u}\n  b:\n    image: i\n" + body + "  s:\n    extends: {service: b}\n" + cs.over + c03skeleton
+		} else if cs.over != "" {
 			s.Files["over.yaml"] = "services:\n  s:\n" + cs.over
 			s.Main = append(s.Main, "over.yaml")
 		}
@@ -578,6 +586,7 @@ func c03overrides() []c03case {
 	var out []c03case
 	add := func(id, short, long, over string) {
 		out = append(out, c03case{id: "ovr/" + id, short: short, long: long, over: over, kind: "eq"})
+		out = append(out, c03case{id: "ovr-extends/" + id, short: short, long: long, over: over, via: "extends", kind: "eq"})
 	}
 	add("depends_on", "    depends_on: [t, u]\n", "    depends_on:\n      t: {condition: service_started, required: true}\n      u: {condition: service_started, required: true}\n",
 		"    depends_on:\n      t: {condition: service_healthy}\n")
